@@ -81,6 +81,16 @@ CHECKS = {
             "bounded: 210 (quick) / 3600 (thorough) constraints of depth <= 2 / 3 x ~50 / 160 trees per grammar; calibrated "
             "readings documented in DESIGN.md (int of an empty selection is 0; raising selector = not satisfied)",
             "TLA+ semantics evaluated by TLC on verdicts recorded from the real constraint objects over TLC-enumerated trees"),
+    "C08": ("translation_validation",
+            "PyAst.tla defines the program space; TLC enumerates every constructor in every operator / field-presence variant with "
+            "atomic children (D1) and every expression slot of every constructor filled with every D1 expression (D2) - 8869 "
+            "expressions, 820 statements; each is canonicalised by CPython's ast.unparse, embedded as helper code and inside a "
+            "`where (...)` clause, pushed through Fandango's front end (C++ reader; the Python reader on a sample) and compared "
+            "with CPython's reading by ast.dump; outcome must be identical or rejected; harvested stdlib statements go the same way",
+            "bounded: all D1, 22% (quick) / all (thorough) D2, 150 / 3000 harvested statements; constructs recorded as findings "
+            "(f-string literal text / braces / nested quotes, numeric underscores, `=` specifier, constraint-level `not`) are "
+            "pinned by their depth-1 witness and excluded from deeper programs; oracle = CPython's ast",
+            "TLC-enumerated program space + translation validation against CPython's ast"),
     "C09": ("model_checking",
             "TreeValue.tla: reference value semantics (bits/bytes/text over the leaf sequence) and the implementation-shaped "
             "value object (append / flush / views) folded subtree by subtree; TLC checks that they agree for every leaf "
